@@ -20,6 +20,9 @@ pub fn qi(n: i128) -> Q {
 pub fn qu(n: u64) -> Q {
     Q::from_integer(BigInt::from(n))
 }
+pub fn qu128(n: u128) -> Q {
+    Q::from_integer(BigInt::from(n))
+}
 pub fn qr(n: i128, d: i128) -> Q {
     Q::new(BigInt::from(n), BigInt::from(d))
 }
